@@ -23,6 +23,10 @@ mod grms;
 mod c19;
 mod c20;
 
+/// watchdog durations: scaled up when a hang witness is re-examined, so that a loaded machine is not mistaken for a hang
+pub static TMO_SCALE: std::sync::atomic::AtomicU64 = std::sync::atomic::AtomicU64::new(1);
+pub fn tmo(ms: u64) -> std::time::Duration { std::time::Duration::from_millis(ms * TMO_SCALE.load(std::sync::atomic::Ordering::SeqCst)) }
+
 pub struct Outcome {
     pub fails: bool,
     pub observed: String,
@@ -33,6 +37,7 @@ fn rerun(w: &Value) -> Option<Outcome> {
     match w["driver"].as_str()? {
         "c19_span" => Some(c19::run_span(w["input"]["text"].as_str()?, w["input"]["start"].as_u64()? as usize, w["input"]["end"].as_u64()? as usize)),
         "c02_lr1" => Some(c02::run(w["input"]["grammar"].as_str()?)),
+        "c07_returns" => Some(c07::run_returns(w["input"]["grammar"].as_str()?, w["input"]["input"].as_str()?)),
         "c07_recover" => Some(c07::run(w["input"]["grammar"].as_str()?, w["input"]["input"].as_str()?, w["input"]["cost"].as_u64()? as u8)),
         "c03_cells" => Some(c03r::run_seed(w["input"]["seed"].as_u64()?)),
         "c06_repairs" => Some(c06::run(w["input"]["grammar"].as_str()?, w["input"]["input"].as_str()?)),
@@ -110,7 +115,18 @@ fn main() {
     }
     let tier = args.get(3).map(|s| s.as_str()).unwrap_or("quick");
     if let Some(w) = search(&args[1], &args[2], tier) {
-        println!("WITNESS {}", w);
+        // a witness that says "no result after .." is only believed if the same input still gives no result with six times
+        // the time (a loaded machine makes watchdogs fire on correct code)
+        let observed = w["observed"].as_str().unwrap_or("").to_string();
+        if observed.contains("no result after") {
+            TMO_SCALE.store(6, std::sync::atomic::Ordering::SeqCst);
+            match rerun(&w) {
+                Some(o) if o.fails => println!("WITNESS {}", w),
+                _ => eprintln!("a watchdog fired but the input returns when given more time: not a witness"),
+            }
+        } else {
+            println!("WITNESS {}", w);
+        }
     }
 }
 
